@@ -22,7 +22,8 @@ for pid in ids:
         engine="coq-model+correspondence",
         level_claimed=dict(category="proof", text=cfg["level_text"], design_ref=cfg.get("design_ref", "DESIGN.md section 4, " + pid)),
         level_note=cfg["level_note"],
-        technique="machine-checked proof in Coq 8.16 of a hand-written Gallina model + differential correspondence check against the Rust implementation",
+        technique="machine-checked proof in Coq 8.16 of a hand-written Gallina model + differential correspondence check against the Rust implementation"
+                  + (" + finite tables regenerated from the Rust source by a translator (tools/gen_tables.py) and proved equal to the model's" if cfg.get("src_tables") else ""),
     ))
 m = dict(
     version=1,
@@ -30,9 +31,9 @@ m = dict(
     hooks=dict(guard="tevec_verif", enable="RUSTFLAGS='--cfg tevec_verif' (set by ./check for every harness build; no source hook is needed so far)",
                baseline_off_cmd="cd /repo && cargo test --workspace --no-fail-fast --offline",
                source_commits=props.HOOK_COMMITS, add_only=True),
-    engines=[dict(name="coq-model+correspondence", path="coq/ harness/ tools/ check",
+    engines=[dict(name="coq-model+correspondence", path="coq/ harness/ harness-pl/ tools/ anchors/ check",
                   serves_properties=[c["property_id"] for c in checks],
-                  kind_free_text="Coq 8.16.1 development (model, proofs, property theorems) + Rust differential harness built against /repo by path + python driver")],
+                  kind_free_text="Coq 8.16.1 development (model, proofs, property theorems; Flocq for the binary64 rounding theorems) + Rust differential harness crates built against /repo by path (harness-pl: Polars backend, thorough tier) + python driver (source fingerprints, table translator, coqchk in the thorough tier)")],
     checks=checks,
     notes="See DESIGN.md. KNOWN_FINDINGS lists recorded findings and fixed defects.",
     not_applicable=na,
